@@ -1,6 +1,7 @@
 mod ctx;
 mod dispatch;
 mod gj;
+mod ops_c17;
 mod ops_c18;
 mod ops_relate;
 
@@ -16,12 +17,14 @@ fn main() {
         std::process::exit(2);
     }
     let mut seed = 0u64;
+    let mut pool = String::new();
     let mut props: Vec<String> = vec![];
     let mut i = 4;
     if args[1] == "record" { i = 5; }
     while i < args.len() {
         match args[i].as_str() {
             "--seed" => { seed = args[i + 1].parse().unwrap_or(0); i += 2; }
+            "--pool" => { pool = args[i + 1].clone(); i += 2; }
             "--props" => { props = args[i + 1].split(',').map(|s| s.to_string()).collect(); i += 2; }
             _ => { i += 1; }
         }
@@ -50,6 +53,7 @@ fn main() {
             let mut w = BufWriter::new(std::fs::File::create(&args[3]).expect("create trace"));
             match args[2].as_str() {
                 "c18" => ops_c18::record(&mut w, seed, n),
+                "c17" => ops_c17::record(&pool, &mut w, seed, n),
                 k => { eprintln!("unknown record kind {k}"); std::process::exit(2); }
             }
             return;
